@@ -19,6 +19,9 @@
 // observed (nerr errkind (pkt ...) closed timedout late)                writes part1, pauses longer than the timeout
 //                                                                       in the middle of a frame, writes part2 (the
 //                                                                       tail of the frame's body, itself a valid frame)
+// input    (15 fmt nref total seed flag)                               a complete frame of `total` bytes with a VALID
+// observed (panicked errkind consumed wanted maxcap nrefs bodylen)      checksum, nref references and a regenerated
+//                                                                       body, around the size limit (sizes only)
 // panicked = 2 in a res: the decoder was not run (memory guard, see guard()).
 package main
 
@@ -607,8 +610,42 @@ func runTimeout(in Sx) Sx {
 	return List(Int(int64(nerr)), Int(int64(kind)), ListOf(pkts[:delivered]), Int(int64(closed)), Int(0), Int(int64(late)))
 }
 
+// runWhole: a well-formed frame (valid CRC) of a given total size with references, fed to ReadPacket
+// followed by three more bytes; only sizes are recorded, so that 8 MiB frames stay in Go
+func runWhole(in Sx) Sx {
+	ver, nref, total, seed, flag := in.At(1).AsInt(), in.At(2).AsInt(), in.At(3).AsInt(), in.At(4).Uint64(), in.At(5).AsInt()
+	hs := HeaderSize(ver)
+	refs := 0
+	if ver == 2 {
+		refs = 4 * nref
+	}
+	bl := total - hs - refs
+	if bl < 0 {
+		bl = 0
+	}
+	payload := append(GenBytes(uint32(seed>>8)|1, refs, 255), GenBytes(uint32(seed)|1, bl, 255)...)
+	frame := craft(ver, 1, byte(flag), byte(nref), uint16(seed), uint32(seed>>3), uint32(seed>>5), payload, total, false)
+	r := NewChunkReader(append(frame, 1, 2, 3), nil)
+	r.Begin()
+	pkt := packet.Make()
+	var err error
+	p, _ := Catch(func() { err = NewEncoder(ver, 0).ReadPacket(r, nil, pkt) })
+	pn := 0
+	if p {
+		pn = 1
+	}
+	got := 0
+	if b, ok := pkt.Body_.([]byte); ok {
+		got = len(b)
+	}
+	return List(Int(int64(pn)), Int(int64(ErrKind(err))), Int(int64(r.Pos)), Int(int64(r.Wanted-r.Start)), Int(int64(r.MaxCap)),
+		Int(int64(len(pkt.Refers_))), Int(int64(got)))
+}
+
 func run(in Sx) Sx {
 	switch in.At(0).Int64() {
+	case 15:
+		return runWhole(in)
 	case 14:
 		return runTimeout(in)
 	case 13:
@@ -802,6 +839,47 @@ func gen(a Args, out *Out) {
 			if p || ErrKind(err) != 3 || r.MaxCap > codec.V2HeaderSize || r.Pos != codec.V2HeaderSize {
 				out.Violation("C02/v2-long-length", "V2 length field above the maximum not refused before allocating", List(List(Int(12), Int(2), Bytes(template), Bytes(tail), Int(int64(l)), Int(int64(l+1))), ListOf(nil)))
 				break
+			}
+		}
+	}
+
+	// 1b. the limits are a function of the whole header: the same sweeps of the length field for
+	// several reference counts, flags and types, (a) header only, then end of stream: a refused
+	// length must be refused from the header alone, nothing allocated, nothing more requested;
+	// (b) with some bytes behind
+	for _, ver := range []int{1, 2} {
+		hs, max := HeaderSize(ver), MaxOf(ver)
+		nrefs := []int{0}
+		if ver == 2 {
+			nrefs = []int{0, 1, 255}
+		}
+		for _, nref := range nrefs {
+			for _, fl := range []byte{0, byte(rng.PickInt(1, 2, 3)), byte(rng.PickInt(0x10, 0x30, 0xFF))} {
+				h := craft(ver, byte(rng.Next()), fl, byte(nref), uint16(rng.Next()), uint32(rng.Next()), uint32(rng.Next()), nil, hs, false)
+				ranges := [][2]int{{0, hs + 2}, {max - 2, max + 4*nref + 3}}
+				if 4*nref > 2 {
+					ranges = append(ranges, [2]int{hs + 4*nref - 2, hs + 4*nref + 2})
+				}
+				if ver == 1 {
+					ranges = append(ranges, [2]int{1<<16 - 3, 1 << 16})
+				} else {
+					ranges = append(ranges, [2]int{1<<24 - 3, 1 << 24})
+				}
+				for _, rg := range ranges {
+					for _, tail := range [][]byte{nil, rng.Bytes(24)} {
+						emit("lenfield-x-header", List(Int(12), Int(int64(ver)), Bytes(h), Bytes(tail), Int(int64(rg[0])), Int(int64(rg[1]))))
+						out.CountN("lenfield-x-header-values", rg[1]-rg[0])
+					}
+				}
+			}
+		}
+		// (c) complete frames with a VALID checksum whose size straddles the limit, with references
+		for _, nref := range nrefs {
+			for _, total := range []int{max - 1, max, max + 1, max + 4*nref, max + 4*nref + 1, hs + 4*nref, hs + 4*nref + 1} {
+				if ver == 1 && total > 65535 {
+					continue
+				}
+				emit("whole-frame-at-limit", List(Int(15), Int(int64(ver)), Int(int64(nref)), Int(int64(total)), Uint(rng.Next()&0xFFFFFFFF), Int(int64(rng.PickInt(0, 0x20)))))
 			}
 		}
 	}
